@@ -97,11 +97,11 @@ func (c19) Run(e *simkit.Env, cc any) {
 	}
 	defer simkit.StopNode(e, n, false, 0)
 	var mu sync.Mutex
-	handled := map[int]int{}       // item id -> times handled by a worker
-	byPool := map[int]int{}        // high priority items handled by the pool itself
-	fromOK := map[int]bool{}       // worker saw the original sender
-	senderOf := map[int]gen.PID{}  // expected sender
-	var workers []gen.PID          // every worker ever started
+	handled := map[int]int{}      // item id -> times handled by a worker
+	byPool := map[int]int{}       // high priority items handled by the pool itself
+	fromOK := map[int]bool{}      // worker saw the original sender
+	senderOf := map[int]gen.PID{} // expected sender
+	var workers []gen.PID         // every worker ever started
 	crashed := 0
 	ringSize := make(chan int64, 8)
 	wh := &Hooks{Name: "worker", Env: e, Slow: c.Slow}
